@@ -21,7 +21,7 @@ CHUNK = {"quick": 10, "thorough": 3}  # a thorough program enumerates up to 3000
 
 RULE = ("A case is one execution: a seeded world + a program of successful operations + one terminal fault "
         "(an aimed rejection, or an interrupt injected at one robotools source line of the terminal operation); "
-        "thorough tier enumerates every line of the terminal operation. Distinct = distinct event-log digest "
+        "thorough tier enumerates every line of the terminal operation (every k-th line from a seeded offset when enumerating all would re-execute more than 3e6 line events for one program). Distinct = distinct event-log digest "
         "(sha256 over per-step (op kind, outcome class, #records, all volumes as hex, history lengths) plus the "
         "bytes of the written file); non-trivial = at least one liquid-moving record was emitted before the fault "
         "or by the faulted operation AND the fault fired.")
@@ -88,7 +88,7 @@ class Exec(ExecBase):
         self.root = None
 
 
-def execute(world, opsource, fault, want_lines=False):
+def execute(world, opsource, fault, want_lines=False, trace_all=False):
     """Runs one program inside a real `with` block on a real scratch directory.
 
     opsource(i, session) -> (op, is_terminal) or None.
@@ -125,7 +125,7 @@ def execute(world, opsource, fault, want_lines=False):
                     inj = None
                     if terminal and fault and fault.get("kind") == "interrupt.line":
                         inj = (fault["k"], fault.get("exc", "interrupt"))
-                    out = sess.step(op, inject=inj, trace=(terminal and want_lines))
+                    out = sess.step(op, inject=inj, trace=((terminal and want_lines) or trace_all))
                     if terminal:
                         res.terminal_lines = out.lines
                         res.fault_fired = out.injected or not out.ok
@@ -217,6 +217,7 @@ def execute(world, opsource, fault, want_lines=False):
                          f"file line {j} {rec!r} takes {ex[1]}{ex[2]} to {float(ex[3])} (limit {float(ex[4])})",
                          {"record": rec, "op": oop})
             res.decode_errors = robot2.decode_errors
+        res.total_lines = sess.total_lines
         res.events = sess.events + [("file", short_hash(data))]
         res.digest = digest_events(res.events)
         for v in res.violations:
@@ -417,7 +418,7 @@ def explore(rng, tier, stats):
     stats.programs += 1
     violations = []
     # pass 1: generation pass (for rejections this *is* the faulted execution)
-    res = execute(world, prog.source, None, want_lines=True)
+    res = execute(world, prog.source, None, want_lines=True, trace_all=(tier == "thorough"))
     ops = res.ops
     label = prog.fault_kind if prog.fault_kind != "interrupt.line" else "none"
     if prog.fault_kind != "interrupt.line":
@@ -449,11 +450,14 @@ def explore(rng, tier, stats):
         n = res.terminal_lines
         stats.lines += n
         if tier == "thorough":
-            if n <= 3000:
+            # every crash point re-runs the whole program: bound the work per program deterministically (by the
+            # line events of the un-faulted run, never by the clock) so that one monster program cannot eat the batch
+            cap = max(50, min(3000, 3_000_000 // max(getattr(res, "total_lines", 0) or 1, 1)))
+            if n <= cap:
                 ks = list(range(1, n + 1))
                 stats.probes["terminal_op_fully_enumerated"] += 1
             else:
-                stride = (n + 2999) // 3000
+                stride = (n + cap - 1) // cap
                 off = rng.randrange(stride)
                 ks = list(range(1 + off, n + 1, stride))
                 stats.probes["terminal_op_strided"] += 1
